@@ -75,9 +75,12 @@ def step (line : String) : String :=
       | some evs => "wf=1 " ++ " ".intercalate (evs.map evStr)
       | none => "wf=0"
     | none => "bad-op"
-  | "str" :: vb :: tf :: tl :: r =>
+  | "str" :: brk :: vb :: tf :: tl :: r =>
     match fromHex tf, fromHex tl, parseFinding r with
-    | some tf, some tl, some (f, []) => toHex (Cppcheck.Template.toString noSrc f (vb == "1") tf tl)
+    | some tf, some tl, some (f, []) =>
+      match Cppcheck.Template.toString (brk == "1") noSrc f (vb == "1") tf tl with
+      | some t => toHex t
+      | none => "hang"
     | _, _, _ => "bad-op"
   | ["static", er, co, s] => match fromHex s with
     | some s => toHex (Cppcheck.Template.substituteStatic (er == "1") (co == "1") s)
@@ -89,13 +92,13 @@ def step (line : String) : String :=
       | some fs => toHex (Cppcheck.Sarif.sarifDefault ver fs)
       | none => "bad-op"
     | _, _ => "bad-op"
-  | "std" :: vb :: tf :: tl :: n :: r =>
+  | "std" :: brk :: vb :: tf :: tl :: n :: r =>
     -- StdLogger duplicate filter keyed by the text rendering: indices of the findings handed to the writer
     match fromHex tf, fromHex tl, n.toNat? with
     | some tf, some tl, some n =>
       match parseFindings n r with
       | some fs =>
-        let render := fun f => Cppcheck.Template.toString noSrc f (vb == "1") tf tl
+        let render := fun f => (Cppcheck.Template.toString (brk == "1") noSrc f (vb == "1") tf tl).getD []
         let kept := Cppcheck.Template.stdLogger render fs
         -- findings are compared structurally; report positions (first occurrence of each kept finding, in order)
         let rec pos (ks : List Finding) (all : List Finding) (i : Nat) : List Nat :=
